@@ -1,8 +1,11 @@
 use hashlink::LinkedHashMap;
-use std::{
-    hash::Hash,
-    time::{Duration, Instant},
-};
+// The clock: `std::time::Instant`. With the verification hooks compiled in it is a wrapper of the
+// same type whose `now()` can be switched (at run time, off by default) to tokio's clock.
+#[cfg(feature = "verif-hooks")]
+use crate::verif::cache::Instant;
+#[cfg(not(feature = "verif-hooks"))]
+use std::time::Instant;
+use std::{hash::Hash, time::Duration};
 
 pub struct LruTimeCache<K, V> {
     map: LinkedHashMap<K, (V, Instant)>,
@@ -104,13 +107,21 @@ impl<K: Clone + Eq + Hash, V> LruTimeCache<K, V> {
 }
 
 #[cfg(feature = "verif-hooks")]
+impl<K: Clone + Eq + Hash, V> LruTimeCache<K, V> {
+    /// Verification hook: the number of entries held (expired ones not yet purged included).
+    pub fn verif_len(&self) -> usize {
+        self.map.len()
+    }
+}
+
+#[cfg(feature = "verif-hooks")]
 impl<K: Clone + Eq + Hash, V: Clone> LruTimeCache<K, V> {
     /// Verification hook: the entries in list order (front = least recently used first) with the
     /// instant stored for each. Read-only.
-    pub fn verif_dump(&self) -> Vec<(K, V, Instant)> {
+    pub fn verif_dump(&self) -> Vec<(K, V, std::time::Instant)> {
         self.map
             .iter()
-            .map(|(k, (v, t))| (k.clone(), v.clone(), *t))
+            .map(|(k, (v, t))| (k.clone(), v.clone(), t.into_std()))
             .collect()
     }
 }
